@@ -125,6 +125,9 @@ META["rule"] += (
 META["rule"] += (
     " " + 'Added after the seventh round: empty source / target selections (the empty sum); the returned attribute matrix is edited in place by the caller, then read back and used for strengths.')
 
+META["rule"] += (
+    " " + "Added after the eighth round: a thirteenth constructor form (the caller's own igraph object, links entered in any order and orientation); nsi_average_path_length with uniform node weights equals the mean hop distance over all ordered pairs joined by a path (self-distance 1).")
+
 REFUSALS = ("NotImplementedError",)
 
 
@@ -176,8 +179,23 @@ class Case:
         import scipy.sparse as sp
         rh = ctx.rng("adjform", cid)
         form = str(rh.choice(["i1", "i1", "i8", "bool", "f8", "list",
-                              "csr", "csc", "coo", "lil", "csr0", "csc0"]))
-        if form in ("i1", "i8", "bool", "f8"):
+                              "csr", "csc", "coo", "lil", "csr0", "csc0",
+                              "igraph"]))
+        if form == "igraph" and not A.any():
+            form = "i1"
+        if form == "igraph":
+            # a graph object of the caller's own: its links are numbered in
+            # the order the caller entered them
+            import igraph
+            ed = np.argwhere(A if directed else np.triu(A))
+            ed = ed[rh.permutation(len(ed))]
+            if not directed:
+                fl = rh.random(len(ed)) < 0.5
+                ed[fl] = ed[fl][:, ::-1]
+            Ah = igraph.Graph(n=self.n, edges=[(int(a), int(b))
+                                                for a, b in ed],
+                              directed=bool(directed))
+        elif form in ("i1", "i8", "bool", "f8"):
             Ah = A.astype(form)
         elif form == "list":
             Ah = A.astype(int).tolist()
@@ -200,9 +218,14 @@ class Case:
         past = rh.random() < 0.33 and self.n >= 2
         kw = {"node_weights": rh.uniform(0.5, 3.0, self.n)} if past else {}
         from pvm.gen.held import as_flag
-        ok, net = ctx.call(Network, adjacency=Ah,
-                           directed=as_flag(rh, directed),
-                           silence_level=3, **kw)
+        if form == "igraph":
+            ok, net = ctx.call(Network.FromIGraph, Ah, silence_level=3)
+            if ok and past:
+                net.node_weights = kw["node_weights"]
+        else:
+            ok, net = ctx.call(Network, adjacency=Ah,
+                               directed=as_flag(rh, directed),
+                               silence_level=3, **kw)
         if not ok:
             ctx.violation(f"constructor:{self.dirs}:raises:{type(net).__name__}",
                           self.info(exc=repr(net), held_as=form), cid)
@@ -636,6 +659,14 @@ def nsi_relations(ctx, c0, A, directed, rng, kdeg, kin, kout, kbil, lc, W):
     if not directed:
         c.check("nsi_local_clustering", pat, lc, typical_weight=cw,
                 mask=kdeg >= 2, counter="nsi_relations")
+    # with uniform node weights the n.s.i. average path length is the mean
+    # hop distance over all ordered pairs joined by a path, every node being
+    # at distance 1 from itself (the documented convention)
+    Dn = R.path_lengths(A).astype(float) + np.eye(n)
+    fin = np.isfinite(Dn)
+    c.check("nsi_average_path_length", "uniform-weights",
+            float(Dn[fin].sum() / fin.sum()), scalar=True,
+            counter="nsi_relations")
     # corrected n.s.i. motif clustering: same `typical_weight` "correction"
     # wording as nsi_degree / nsi_local_clustering; compared where the
     # unweighted coefficient has a non-zero denominator
